@@ -13,4 +13,18 @@ pub assume_specification<T> [<[T]>::rotate_right] (s: &mut [T], k: usize)
     requires k <= old(s)@.len(),
     ensures final(s)@.len() == old(s)@.len(),
         forall|i: int| 0 <= i < old(s)@.len() ==> #[trigger] final(s)@[i] == old(s)@[(i + old(s)@.len() - k) % (old(s)@.len() as int)];
+// rule R23: <[usize]>::binary_search / partition_point (std documentation: for a sorted slice Ok(i) is the position of an
+// equal element, Err(i) the insertion point that keeps the order; partition_point returns the length of the prefix on
+// which the predicate holds, for a slice partitioned by it)
+pub open spec fn nondecreasing(s: Seq<usize>) -> bool { forall|i: int, j: int| 0 <= i <= j < s.len() ==> s[i] <= s[j] }
+#[verifier::external_body]
+pub fn usize_binary_search(s: &[usize], x: &usize) -> (r: Result<usize, usize>)
+    ensures nondecreasing(s@) ==> (match r {
+        Ok(i) => i < s@.len() && s@[i as int] == *x,
+        Err(i) => i <= s@.len() && (forall|k: int| 0 <= k < i ==> s@[k] < *x) && (forall|k: int| i <= k < s@.len() ==> s@[k] > *x) })
+{ s.binary_search(x) }
+#[verifier::external_body]
+pub fn usize_partition_point_lt(s: &[usize], bound: usize) -> (r: usize)
+    ensures nondecreasing(s@) ==> r <= s@.len() && (forall|k: int| 0 <= k < r ==> s@[k] < bound) && (forall|k: int| r <= k < s@.len() ==> s@[k] >= bound)
+{ s.partition_point(|&v| v < bound) }
 // ===== end prelude/std_assumed.rs =====
